@@ -699,6 +699,11 @@ func (env *Env) callExpr(e *SExpr) Val {
 					return Val{t: ite(eq(x.t, tNil), intLit(0), sel(ex.get(env.cur, ln), x.t)), typ: types.Typ[types.Int]}
 				case *types.Array:
 					return Val{t: intLit(u.Len()), typ: types.Typ[types.Int]}
+				case *types.Chan:
+					if name == "cap" {
+						// capacity of a channel: fixed when it is made
+						return Val{t: app("Int", "chan$cap", x.t), typ: types.Typ[types.Int]}
+					}
 				}
 				env.fail("len of %s", x.typ)
 			case "typeis":
